@@ -103,7 +103,9 @@ def run(tier, seed, proof):
     bases = [(fams[i % len(fams)], loopgen.scenario(seed * 1000 + i, family=fams[i % len(fams)], method=None, faults=False)) for i in range(nb)]
     # enumerated bases (method-independent bodies of vlib/loopgen.py erronly_cases / quit_cases): error-only descriptors, iv_quit in a batch
     enum = [(n.split("-", 3)[0] + ":" + n.split("-", 3)[3], b) for n, b in loopgen.erronly_cases() + loopgen.quit_cases() if n.split("-")[1:3] == ["epoll", "timerfd"]]
-    bases += enum if tier != "quick" else [enum[(seed + j * 5) % len(enum)] for j in range(6)] + [e for e in enum if e[0].startswith("erronly")][:3]
+    # same-iteration retraction by a cross-thread event / raw-event handler (the batch holds the kick AND descriptors): method-independent bodies
+    enum += [("retract:" + n.split("-", 3)[3], b) for n, b in loopgen.retract_cases(seed) if n.startswith(("retract-epoll-timerfd-event-", "retract-epoll-timerfd-raw-"))][::4]
+    bases += enum if tier != "quick" else [enum[(seed + j * 5) % len(enum)] for j in range(6)] + [e for e in enum if e[0].startswith("erronly")][:3] + [e for e in enum if e[0].startswith("retract")][seed % 5::5]
     for i, (fam, base) in enumerate(bases):
         # how many wait calls does the base run make?
         r0 = l1.run_case("base", with_cfg(base, None, []))
